@@ -362,6 +362,52 @@ def extract_maxlen(cls):
     return int(v.args[0].body.keywords[0].value.value)
 
 
+def extract_copy_branch(cls):
+    """the copy constructor COO(other_coo[, fill_value=v]): the branch `if isinstance(coords, COO):` of __init__.
+    Facts: it starts with the shallow copy of the attribute dict (so _cache, _csr, _csc are inherited), the fill
+    branch re-binds fill_value and gives the copy a FRESH cache when the original has one (a copy with another
+    fill value must not see results cached for the old one), the plain copy keeps sharing the cache."""
+    fn = next((n for n in cls.body if isinstance(n, ast.FunctionDef) and n.name == "__init__"), None)
+    if fn is None:
+        raise Shape("COO.__init__ not found")
+    br = next((s for s in fn.body if isinstance(s, ast.If)
+               and ast.unparse(s.test) == f"isinstance({fn.args.args[1].arg}, COO)"), None)
+    if br is None or br.orelse:
+        raise Shape("COO.__init__: copy branch `if isinstance(coords, COO):` not found")
+    first = fn.args.args[1].arg
+    body = br.body
+    if any(isinstance(n, ast.Attribute) and n.attr in ("_csr", "_csc") for s in body for n in ast.walk(s)):
+        raise Shape("COO.__init__ copy branch handles _csr/_csc: not understood")
+    shallow = (isinstance(body[0], ast.Expr) and ast.unparse(body[0].value) == f"self._make_shallow_copy_of({first})")
+    returns = isinstance(body[-1], ast.Return) and body[-1].value is None
+
+    def is_reset(s):
+        return (isinstance(s, ast.If) and _is_cache_guard(s.test) and not s.orelse and len(s.body) == 1
+                and isinstance(s.body[0], ast.Expr) and ast.unparse(s.body[0].value) == "self.enable_caching()")
+
+    def touches_cache(s):
+        return any(_is_self_cache(n) or (isinstance(n, ast.Attribute) and n.attr == "enable_caching") for n in ast.walk(s))
+    fill_ifs = [s for s in body if isinstance(s, ast.If) and ast.unparse(s.test) == "fill_value is not None"]
+    if len(fill_ifs) != 1 or fill_ifs[0].orelse:
+        raise Shape("COO.__init__ copy branch: expected one `if fill_value is not None:`")
+    fb = fill_ifs[0].body
+    sets_fill = any(isinstance(s, ast.Assign) and ast.unparse(s.targets[0]) == "self.fill_value"
+                    and "fill_value" in _names(s.value) for s in fb)
+    fill_resets = any(is_reset(s) for s in fb)
+    plain_resets = any(is_reset(s) for s in body)
+    # any other use of the cache in the branch is not understood
+    for s in body:
+        if s is fill_ifs[0]:
+            for t in fb:
+                if touches_cache(t) and not is_reset(t):
+                    raise Shape("COO.__init__ copy branch: unexpected use of the cache in the fill branch")
+        elif touches_cache(s) and not is_reset(s):
+            raise Shape("COO.__init__ copy branch: unexpected use of the cache")
+    return {"copy_branch_shallow_copy": shallow, "copy_branch_returns": returns, "copy_fill_sets_fill_value": sets_fill,
+            "copy_fill_resets_cache": fill_resets or plain_resets, "copy_plain_resets_cache": plain_resets,
+            "source_sha": hashlib.sha256(ast.unparse(br).encode()).hexdigest()[:12]}
+
+
 def gen_cache(repo):
     tree = ast.parse(open(os.path.join(repo, CORE)).read())
     cls = next((n for n in tree.body if isinstance(n, ast.ClassDef) and n.name == "COO"), None)
@@ -370,6 +416,7 @@ def gen_cache(repo):
     maxlen = extract_maxlen(cls)
     memos = {m: extract_memo(cls, m) for m in ("transpose", "reshape")}
     attrs = {m: extract_attr_memo(cls, m) for m in ("tocsr", "tocsc")}
+    cpb = extract_copy_branch(cls)
     L = ["(* Gen/S_cache.v — GENERATED by tools/sitegen/alias.py from " + CORE + "; do not edit. *)",
          "From Coq Require Import ZArith List String Bool.", "Import ListNotations.", "Local Open Scope string_scope.", "",
          "(* deque(maxlen=...) in COO.enable_caching *)",
@@ -392,7 +439,12 @@ def gen_cache(repo):
         L.append(f"Definition {m}_same_compute : bool := {coq_bool(d['same_compute'])}.")
         L.append(f"Definition {m}_guard_first : bool := {coq_bool(d['guard_first'])}.")
         L.append("")
-    rep = {"cache_protocol": {"status": "ok", "maxlen": maxlen, **{m: d for m, d in memos.items()},
+    L.append(f"(* COO.__init__, branch `if isinstance(coords, COO):`  sha {cpb['source_sha']} *)")
+    for k, v in cpb.items():
+        if k != "source_sha":
+            L.append(f"Definition {k} : bool := {coq_bool(v)}.")
+    L.append("")
+    rep = {"cache_protocol": {"status": "ok", "maxlen": maxlen, "copy_branch": cpb, **{m: d for m, d in memos.items()},
                               **{m: d for m, d in attrs.items()}}}
     return "\n".join(L) + "\n", rep
 
